@@ -211,32 +211,116 @@ def _syms(st):
     return out
 
 
+def _reads_field(b, defs, op, field, depth=4):
+    """does the operand read `.<field>` of something (directly or through single-definition copies)?"""
+    for _ in range(depth):
+        if op.get("o") not in ("copy", "move"):
+            return False
+        pl = op["pl"]
+        if any(isinstance(p, dict) and p.get("n") == field for p in pl["p"]):
+            return True
+        if pl["p"]:
+            return False
+        d = mu.single_def(defs, pl["l"])
+        if d is None or d[1] == "term" or d[2].get("k") != "use":
+            return False
+        op = d[2]["op"]
+    return False
+
+
+def nsec_inline_order(ctx, b):
+    """the window-order test written in the function body: a comparison between `<last element>.window_block` and the window
+    number that goes into the pushed TypeBitMap, whose "previous >= current" outcome leads to the error return"""
+    defs = mu.defs_of(b)
+    aggs = mu.aggregates(b, "nsec::TypeBitMap")
+    if len(aggs) != 1:
+        return False, "expected one TypeBitMap construction"
+    agg = aggs[0][2]["rv"]
+    fi = list(agg["fields"]).index("window_block") if "window_block" in agg["fields"] else None
+    if fi is None:
+        return False, "TypeBitMap has no window_block field"
+    W = mu.origin_local(b, defs, mu.op_local(agg["ops"][fi]))
+    lasts = mu.calls(b, r"<impl \[T\]>::last$")
+    if len(lasts) != 1:
+        return False, "the previous window is not obtained with last()"
+    errs = [x[0] for x in mu.aggregates(b, "simple_dns_error::SimpleDnsError")]
+    pushes = [x[0] for x in mu.calls(b, r"Vec::<T, A>::push$")]
+    flip = {"Ge": "Le", "Le": "Ge", "Gt": "Lt", "Lt": "Gt"}
+    neg = {"Ge": "Lt", "Lt": "Ge", "Gt": "Le", "Le": "Gt"}
+    for bi, bl in enumerate(b.blocks):
+        if bl["cleanup"]:
+            continue
+        for s1 in bl["stmts"]:
+            if s1["s"] != "assign" or s1["rv"]["k"] != "bin" or s1["rv"]["op"] not in flip:
+                continue
+            a0, b0, op = s1["rv"]["a"], s1["rv"]["b"], s1["rv"]["op"]
+            pa, pb = _reads_field(b, defs, a0, "window_block"), _reads_field(b, defs, b0, "window_block")
+            wa = mu.origin_local(b, defs, mu.op_local(a0)) == W if mu.op_local(a0) is not None else False
+            wb = mu.origin_local(b, defs, mu.op_local(b0)) == W if mu.op_local(b0) is not None else False
+            if pa and wb:
+                pass
+            elif pb and wa:
+                op = flip[op]
+            else:
+                continue
+            sw = bl["term"]
+            if sw["t"] != "switch" or mu.op_local(sw["discr"]) != s1["pl"]["l"]:
+                continue
+            true_t = sw["otherwise"]
+            false_t = [tg for v, tg in sw["arms"] if int(v) == 0]
+            if not false_t:
+                continue
+            rt, rf = mu.reachable_from(b, true_t, avoid={bi}), mu.reachable_from(b, false_t[0], avoid={bi})
+            # the rejecting side reaches an error construction and never the push
+            err_true = any(e in rt for e in errs) and not any(p in rt for p in pushes)
+            err_false = any(e in rf for e in errs) and not any(p in rf for p in pushes)
+            if err_true == err_false:
+                continue
+            error_when = op if err_true else neg[op]          # condition (previous <op> current) under which the error is returned
+            ok_side = rf if err_true else rt
+            if error_when == "Ge" and any(p in ok_side for p in pushes):
+                return True, "error when previous.window_block >= window_block (test in the function body)"
+            return False, "the window test rejects when previous %s current; required: previous >= current" % error_when
+    return False, "no comparison between the previous window block and the current one guards the push"
+
+
 def order_check(ctx, b, an, tn):
     """SVCB: at the point a parameter is stored, the numeric domain entails key > previous key.
        NSEC: the closure given to is_some_and returns `previous.window_block >= window_block` and its true edge is the error."""
     prog = ctx.prog
     if tn == "SVCB":
-        names = {n: l for l, n in b.local_names().items()}
-        if "previous_key" not in names:
-            return False, "local `previous_key` not found"
-        pk = "_%d" % names["previous_key"]
         ins = [e for e in an.events if e.get("callee") and e["callee"]["def"].endswith("BTreeMap::<K, V, A>::insert")]
         if len(ins) != 1:
             return False, "expected one params.insert"
         st = ins[0]["st"]
         # the key read of this iteration: 16-bit read at the loop cursor
         keys = [r for r in an.reads if r["width"] == 2 and len(r["off"].t) == 1 and r["off"].c == 0 and r["off"].t[0][0].startswith("phi(")]
-        prevs = [ph[pk][0] for n, (ph, inc, back) in an.join_info.items() if pk in ph]
-        if len(keys) != 1 or not prevs:
-            return False, "cannot identify the key read / the loop-carried previous key"
+        if len(keys) != 1:
+            return False, "cannot identify the key read of the parameter loop"
         key = Lin.sym(keys[0]["sym"])
-        for pv in prevs:
-            if entails(st.facts, an.iv, Lin.sym(pv) + 1 - key, an.depth):
-                return True, "at params.insert the domain entails key >= previous_key + 1"
+        # the loop-carried value that remembers the last key: its value on the back edge is key + d for a constant d
+        # (d = 0: "previous key", d = 1: "smallest key still allowed"); strictly increasing keys need  carried + 1 - d <= key
+        tried = []
+        for n, (ph, inc, back) in an.join_info.items():
+            for var, (pname, vs) in ph.items():
+                for i, v in enumerate(vs):
+                    if not back[i]:
+                        continue
+                    dlt = v - key
+                    if not dlt.is_const():
+                        # the value may have been widened / cast: compare through derived symbols
+                        continue
+                    tried.append((var, dlt.c))
+                    if entails(st.facts, an.iv, Lin.sym(pname) + 1 - dlt.c - key, an.depth):
+                        return True, "at params.insert the domain entails key > every earlier key (carried in %s, offset %d)" % (var, dlt.c)
+        if not tried:
+            return False, "no loop-carried value remembers the previous key"
         return False, "at params.insert nothing relates the key to the previous key (equal or smaller keys are accepted)"
     if tn == "NSEC":
         import zone
         cl = [x for x in prog.bodies.values() if x.kind == "Closure" and x.root == b.id]
+        if len(cl) == 0:
+            return nsec_inline_order(ctx, b)
         if len(cl) != 1:
             return False, "expected one closure (the is_some_and predicate)"
         can = ctx.whole.results.get(cl[0].id)
